@@ -578,7 +578,8 @@ void sim_end_run() {
   for (Island &is : G.islands) island_release(&is);
   G.islands.clear();
   G.bump = G.arena + ARENA_LO;
-  for (auto &kv : G.heap) __real_free(kv.first);
+  // heap blocks the library still holds are NOT freed behind its back (a tree may legitimately cache an
+  // instance in a static); they were counted as leaks by count_leaks() and are simply forgotten
   G.heap.clear();
   for (auto &kv : G.ostreams) __real_fclose(kv.first);
   G.ostreams.clear();
